@@ -261,6 +261,41 @@ func e4Nil(e *e4Engine, funcs []*ssa.Function, res *e4Result) {
 			}
 		})
 	}
+	// (c) local variables that may still hold their nil zero value: φ with a nil edge
+	for _, f := range funcs {
+		if inUio(f) {
+			continue
+		}
+		ord := map[string]int{}
+		allInstrs(f, func(in ssa.Instruction) {
+			ph, ok := in.(*ssa.Phi)
+			if !ok || !nilable(ph.Type()) || isErrorType(ph.Type()) {
+				return
+			}
+			hasNil := false
+			for _, ed := range ph.Edges {
+				if isNilConst(ed) {
+					hasNil = true
+				}
+			}
+			if !hasNil {
+				return
+			}
+			for _, use := range derefUses(ph) {
+				res.nNil++
+				name := ph.Comment
+				if name == "" {
+					name = "φ"
+				}
+				key := e.descr(use, "nil-use", "variable "+name+" used by "+useDesc(use), ord)
+				if nilGuarded(use, ph) {
+					e.close(use, key, "D8 compared with nil on a dominating edge", "", false)
+				} else {
+					e.open(use, key, "the variable may still be nil on a path reaching this dereference")
+				}
+			}
+		})
+	}
 	// (b) pointer fields a decoder may leave nil on a success path, dereferenced by readers
 	e4NilFields(e, funcs, res)
 }
